@@ -136,6 +136,26 @@ def run(ctx: Ctx) -> int:
         except Exception as e:
             ctx.violation("detector-columns-after-circuit-change-raises:" + text.replace("\n", ";")[:40], f"sampling after the circuit object was changed raised {e!r}",
                           {"text": text, "det": True})
+    # the detector columns do not depend on whether observables are asked for: a sampler with the same seed returns the same detector bits
+    # with and without append_observables, also when a random detector shares its component with an observable
+    for text in ["H 0\nCX 0 1\nM 0 1\nDETECTOR rec[-2]\nOBSERVABLE_INCLUDE(0) rec[-1]",
+                 "H 0 2\nCX 0 1\nT 2\nH 2\nM 0 1 2\nDETECTOR rec[-3]\nDETECTOR rec[-1]\nOBSERVABLE_INCLUDE(1) rec[-2] rec[-1]",
+                 "H 0\nCX 0 1\nX_ERROR(0.25) 1\nM 0 1\nDETECTOR rec[-1] rec[-2]\nDETECTOR rec[-2]\nOBSERVABLE_INCLUDE(0) rec[-1]\nOBSERVABLE_INCLUDE(2) rec[-2]"]:
+        try:
+            c_ = tsim.Circuit(text)
+            plain_ = np.asarray(c_.compile_detector_sampler(seed=9).sample(96)).astype(int)
+            with_ = np.asarray(c_.compile_detector_sampler(seed=9).sample(96, append_observables=True)).astype(int)
+            sep_ = c_.compile_detector_sampler(seed=9).sample(96, separate_observables=True)
+        except Exception as e:
+            ctx.violation("detector-bits-flag-dependence-raises:" + text.replace("\n", ";")[:40], f"detector sampler raised {e!r}", {"text": text, "det": True})
+            continue
+        nd_ = c_.num_detectors
+        ctx.count(("flag-independent", text), nontrivial=True, bucket="detector-bits-independent-of-observable-flags")
+        if not (np.array_equal(plain_, with_[:, :nd_]) and np.array_equal(plain_, np.asarray(sep_[0]).astype(int))):
+            ctx.violation("detector-bits-depend-on-observable-flags:" + text.replace("\n", ";")[:50],
+                          f"same seed: sample() returns detector rows with mean {plain_.mean(axis=0).round(3).tolist()}, sample(append_observables=True) rows with mean "
+                          f"{with_[:, :nd_].mean(axis=0).round(3).tolist()} in the detector columns (they must be identical bit for bit)",
+                          {"text": text, "det": True, "flag": "plain vs append_observables, same seed"})
     ctx.cov.update({"stats": stats})
     if ctx.broken and not ctx.violations:
         report_broken_without_input(ctx)
